@@ -333,3 +333,106 @@ def grid_range_or_discard(east, north):
     """The inverse conversion documents (and enforces) eastings in [-2 830 000, 3 830 000] and northings in [0, 1e7]."""
     if not (-2830000.0 <= east <= 3830000.0) or not (0.0 <= north <= 10000000.0):
         raise Discard()
+
+
+# ------------------------------------------------------------------------------------------------ stratified sweeps
+# Random draws find a region of relative measure p with probability ~ n p; a thin slab (one latitude, one northing, one
+# offset from the central meridian) is found with certainty by a one-dimensional lattice finer than the slab.  The sweeps
+# below walk each axis of the quantifier on an n-point lattice (seeded phase) while the other coordinates, the ellipsoid and
+# the projection are fixed per line by the seed.  They are enumerations: a failing point is its own replay case.
+
+def _sweep_rnd(seed, salt):
+    import random
+    return random.Random(1000003 * int(seed) + salt)
+
+
+def _sweep_ell(rnd):
+    if rnd.random() < 0.5:
+        return S.SHIPPED_ELLIPSOIDS[rnd.randrange(4)]
+    return {"a": rnd.uniform(6.3e6, 6.4e6), "invf": rnd.uniform(150.0, 400.0)}
+
+
+def _sweep_prj(rnd):
+    r = rnd.random()
+    if r < 0.5:
+        return "utm"
+    zw = [2, 3, 6, 8][rnd.randrange(4)]
+    return {"fe": [0.0, 200000.0, 500000.0][rnd.randrange(3)], "fn": 10000000.0, "k0": rnd.uniform(0.999, 1.0), "zw": zw,
+            "cm1": -180.0 + zw / 2.0}
+
+
+def geo_sweeps(n_quick, n_thorough, lat_lo=-80.0, lat_hi=84.0):
+    def enum(tier, seed, shard, nshards):
+        n = n_thorough if tier == "thorough" else n_quick
+        rnd = _sweep_rnd(seed, 101)
+        base = {"kind": "float", "kind2": "float", "num": "float", "defaults": False}
+        i = 0
+        # 1. latitude sweep, UTM / GRS80, automatic zone, one seeded meridian
+        lon = rnd.uniform(-180.0, 180.0)
+        ph = rnd.random()
+        for k in range(n):
+            if i % nshards == shard:
+                yield dict(base, lat=lat_lo + (k + ph) * (lat_hi - lat_lo) / n, lon=lon, zone=0, ell="grs80", prj="utm")
+            i += 1
+        # 2. latitude sweep, explicit zone, seeded ellipsoid / projection / offset from the central meridian (up to 30 deg)
+        ell, prj = _sweep_ell(rnd), _sweep_prj(rnd)
+        zs = [z for z in zones_of(prj) if -150.0 < cm_of(prj, z) < 150.0]
+        zone = zs[rnd.randrange(len(zs))]
+        dl = rnd.uniform(-30.0, 30.0)
+        ph = rnd.random()
+        for k in range(n):
+            if i % nshards == shard:
+                yield dict(base, lat=lat_lo + (k + ph) * (lat_hi - lat_lo) / n, lon=cm_of(prj, zone) + dl, zone=zone, ell=ell, prj=prj)
+            i += 1
+        # 3. longitude sweep around the globe, UTM, automatic zone, one seeded parallel and ellipsoid
+        ell = _sweep_ell(rnd)
+        lat = rnd.uniform(lat_lo, lat_hi)
+        ph = rnd.random()
+        for k in range(n):
+            if i % nshards == shard:
+                yield dict(base, lat=lat, lon=-180.0 + (k + ph) * 360.0 / n, zone=0, ell=ell, prj="utm")
+            i += 1
+        # 4. sweep of the offset from the central meridian (-30..30 deg), explicit zone, seeded parallel / ellipsoid / projection
+        ell, prj = _sweep_ell(rnd), _sweep_prj(rnd)
+        zs = [z for z in zones_of(prj) if -150.0 < cm_of(prj, z) < 150.0]
+        zone = zs[rnd.randrange(len(zs))]
+        lat = rnd.uniform(lat_lo, lat_hi)
+        ph = rnd.random()
+        for k in range(n):
+            if i % nshards == shard:
+                yield dict(base, lat=lat, lon=cm_of(prj, zone) - 30.0 + (k + ph) * 60.0 / n, zone=zone, ell=ell, prj=prj)
+            i += 1
+    return enum
+
+
+def grid_sweeps(n_quick, n_thorough):
+    def enum(tier, seed, shard, nshards):
+        n = n_thorough if tier == "thorough" else n_quick
+        rnd = _sweep_rnd(seed, 202)
+        i = 0
+        for line in range(4):
+            # lines 0, 1: northing sweeps (equator .. band limit) at a seeded easting; lines 2, 3: easting sweeps at a seeded northing
+            if line in (0, 2):
+                ell, prj = "grs80", "utm"
+            else:
+                ell, prj = _sweep_ell(rnd), _sweep_prj(rnd)
+            fe, fn, k0, zw, cm1, kind = S.projection_params(prj)
+            a, invf = S.ellipsoid_params(ell)
+            zs = zones_of(prj)
+            zone = zs[rnd.randrange(len(zs))]
+            south = rnd.random() < 0.5
+            ymax = abs(meridian_arc(-80.0 if south else 84.0, a, invf)) * k0
+            xmax = 400000.0 if line in (0, 2) else 3.0e6
+            ph = rnd.random()
+            x0 = rnd.uniform(-xmax, xmax)
+            y0 = rnd.uniform(0.0, ymax if line in (0, 2) else 0.9 * ymax)
+            for k in range(n):
+                if i % nshards == shard:
+                    if line < 2:
+                        x, y = x0, (k + ph) * ymax / n
+                    else:
+                        x, y = -xmax + (k + ph) * 2 * xmax / n, y0
+                    yield {"zone": zone, "east": fe + x, "north": (fn - y) if south else y, "hemi": "south" if south else "north",
+                           "ell": ell, "prj": prj, "defaults": False, "num": "float"}
+                i += 1
+    return enum
